@@ -120,6 +120,7 @@ func goGsm(f []string) string {
 				res = "err"
 			} else {
 				res = hx(b)
+				retainBytes("gsm7encoding.Encode", b)
 			}
 		case "dec":
 			b, err := gsm.Decode(unhx(f[1]))
@@ -127,6 +128,7 @@ func goGsm(f []string) string {
 				res = "err"
 			} else {
 				res = cpsOf(string(b))
+				retainBytes("gsm7encoding.Decode", b)
 			}
 		case "valid":
 			res = strconv.FormatBool(gsm.IsValidGSM7String(textOfCps(f[1])))
@@ -135,9 +137,13 @@ func goGsm(f []string) string {
 		case "badbytes":
 			res = hx(gsm.ValidateGSM7Buffer(unhx(f[1])))
 		case "pack":
-			res = hx(gsm.Pack(unhx(f[1])))
+			pk := gsm.Pack(unhx(f[1]))
+			retainBytes("gsm7encoding.Pack", pk)
+			res = hx(pk)
 		case "unpack":
-			res = hx(gsm.Unpack(unhx(f[1])))
+			up := gsm.Unpack(unhx(f[1]))
+			retainBytes("gsm7encoding.Unpack", up)
+			res = hx(up)
 		}
 	})
 	if o.Panic != "" {
